@@ -20,6 +20,7 @@ import (
 // predicate is added to the prelude of this run.
 
 type regexSpec struct {
+	fn        string // if set: the regexp is the literal of the nth regexp.MustCompile call in this function (name = ordinal, "1"...)
 	pkg, name string // global variable
 	pred      string // specification predicate (V) Bool
 	specRE    string // SMT RegLan of the specification language (full-string)
@@ -27,11 +28,16 @@ type regexSpec struct {
 }
 
 var regexSpecs = map[string][]regexSpec{
+	"C11": {
+		{"github.com/git-lfs/git-lfs/v3/tq.configureCustomAdapters", "github.com/git-lfs/git-lfs/v3/tq", "1", "",
+			`(re.++ (str.to_re "lfs.customtransfer.") (re.+ (re.diff re.allchar (str.to_re "."))) (str.to_re ".path"))`,
+			"a configuration key names a custom transfer agent only if the whole key is lfs.customtransfer.<name>.path (a key that merely contains such text - e.g. an lfs.<url>.access key, which .lfsconfig may set - does not)"},
+	},
 	"C07": {
-		{"github.com/git-lfs/git-lfs/v3/lfs", "oidRE", "isoid",
+		{"", "github.com/git-lfs/git-lfs/v3/lfs", "oidRE", "isoid",
 			`((_ re.loop 64 64) (re.union (re.range "0" "9") (re.range "a" "f")))`,
 			"object ids are exactly 64 lower-case hexadecimal digits"},
-		{"github.com/git-lfs/git-lfs/v3/lfs", "extRE", "isextkey",
+		{"", "github.com/git-lfs/git-lfs/v3/lfs", "extRE", "isextkey",
 			`(re.++ (str.to_re "ext-") (re.range "0" "9") (str.to_re "-") (re.+ (re.union (re.range "0" "9") (re.range "a" "z") (re.range "A" "Z") (str.to_re "_"))) re.all)`,
 			"extension keys start with ext-<one digit>-<word characters>"},
 	},
@@ -196,7 +202,14 @@ func regexPre(w *World, id string, cfg *solveCfg) []*Obligation {
 	for _, rs := range regexSpecs[id] {
 		ob := &Obligation{Name: rs.pkg[strings.LastIndex(rs.pkg, "/")+1:] + "." + rs.name + "#const@regexp-language", Kind: "const", Desc: rs.desc, Expect: "unsat"}
 		obls = append(obls, ob)
-		lit, err := globalRegexLiteral(w, rs.pkg, rs.name)
+		var lit string
+		var err error
+		if rs.fn != "" {
+			ob.Name = rs.fn[strings.LastIndex(rs.fn, "/")+1:] + "#const@regexp-language:" + rs.name
+			lit, err = localRegexLiteral(w, rs.fn, rs.name)
+		} else {
+			lit, err = globalRegexLiteral(w, rs.pkg, rs.name)
+		}
 		if err != nil {
 			ob.Status = "error"
 			ob.Model = err.Error()
@@ -234,7 +247,7 @@ func regexPre(w *World, id string, cfg *solveCfg) []*Obligation {
 			}
 			ob.Status = st
 		}
-		if ob.Status == "unsat" {
+		if ob.Status == "unsat" && rs.pred != "" {
 			// link the literal to the specification predicate for this run
 			name := fmt.Sprintf("lit_re_%s", rs.name)
 			if _, dup := w.db.LitNames[lit]; !dup {
@@ -248,4 +261,53 @@ func regexPre(w *World, id string, cfg *solveCfg) []*Obligation {
 		}
 	}
 	return obls
+}
+
+// localRegexLiteral returns the literal of the nth (1-based, source order)
+// regexp.MustCompile call inside the named function.
+func localRegexLiteral(w *World, fnKey, nth string) (string, error) {
+	fn := w.fnByKey[fnKey]
+	if fn == nil {
+		return "", fmt.Errorf("function %s not found", fnKey)
+	}
+	type site struct {
+		pos int
+		lit string
+		ok  bool
+	}
+	var sites []site
+	for _, b := range fn.Blocks {
+		for _, ins := range b.Instrs {
+			call, ok := ins.(*ssa.Call)
+			if !ok {
+				continue
+			}
+			f := call.Common().StaticCallee()
+			if f == nil || f.String() != "regexp.MustCompile" {
+				continue
+			}
+			c, isConst := call.Common().Args[0].(*ssa.Const)
+			s := site{pos: int(call.Pos())}
+			if isConst && c.Value != nil {
+				s.lit, s.ok = constant.StringVal(c.Value), true
+			}
+			sites = append(sites, s)
+		}
+	}
+	for i := range sites {
+		for j := i + 1; j < len(sites); j++ {
+			if sites[j].pos < sites[i].pos {
+				sites[i], sites[j] = sites[j], sites[i]
+			}
+		}
+	}
+	n := 0
+	fmt.Sscanf(nth, "%d", &n)
+	if n < 1 || n > len(sites) {
+		return "", fmt.Errorf("%s has %d regexp.MustCompile calls, wanted number %s", fnKey, len(sites), nth)
+	}
+	if !sites[n-1].ok {
+		return "", fmt.Errorf("%s: pattern %s is not a literal", fnKey, nth)
+	}
+	return sites[n-1].lit, nil
 }
